@@ -119,6 +119,12 @@ CHECKS["C02"] = dict(level="model_checking", design="DESIGN.md §6 C02",
     text="Accepted => schema-valid: each run of the spec validator on an edited document is recorded with the tagged raw document; TLC evaluates the ~75-definition Swagger schema with the same independent draft-4 operator as C01.",
     note="Only the stated direction is checked. Known: a null under anyOf/oneOf/not positions is accepted (C01's NullEarlyExit), listed as an open finding with a witness document.")
 
+CHECKS["C09"] = dict(level="model_checking", design="DESIGN.md §6 C09, §3.1 Visited",
+    technique="Visited.tla (the visited-path heuristic transcribed character by character) model-checked by TLC over all small definition trees; D0/D1 differential runs over a location x name x value carrier universe judged by the TLA+ operators Valid / SimpleValid (Trace_Carrier.tla)",
+    text="Which carriers are reached is analysed exhaustively at design level (Visited.tla); how a value is judged is decided by the draft-4 / simple-schema operators. Every carrier of the universe is bound to the code by validating "
+         "a clean document with and without the value and checking: accepted => nothing new; rejected default => an error; rejected example => a new warning and no error.",
+    note="Message text is never inspected. The known suffix-heuristic skip is an open finding whose deviation operator is the transcribed heuristic applied to the walker's paths.")
+
 NOT_YET = {}
 
 
